@@ -83,6 +83,31 @@ def candidates(mach):
                             out.append({"op": "new_space", "parent": "", "name": "ZZ", "bases": [t.path(), u.path()], "why": "no-mro"})
             except rm.NoMRO:
                 pass
+        # add_bases after which some space - the edited one, a direct sub or one further down - has no C3 linearisation
+        for t in spaces:
+            if t is s or t in s.bases:
+                continue
+            try:
+                if s in rm.mro(t) or t in rm.mro(s):
+                    continue
+            except rm.NoMRO:
+                continue
+            if mach.lineal_conflict(s, t):
+                continue
+            s.bases.append(t)
+            try:
+                broken = None
+                for u in spaces:
+                    try:
+                        rm.mro(u)
+                    except rm.NoMRO:
+                        broken = u
+                        break
+            finally:
+                s.bases.pop()
+            if broken is not None:
+                depth = 0 if broken is s else (1 if s in broken.bases else 2)
+                out.append({"op": "add_bases", "space": p, "bases": [t.path()], "why": "no-mro-depth%d" % depth})
         sibs = [x for x in s.parent.spaces if x != s.name]
         others = sibs + (list(s.parent.refs) if hasattr(s.parent, "refs") else [])
         if others:
